@@ -1,4 +1,4 @@
-import Witverif.Proofs.Chan
+import Witverif.Proofs.ChanReach
 /-!
 # C20 — Futures deliver exactly one value and never strand a writer
 
@@ -114,5 +114,196 @@ theorem unwritten_writer_schedules_default (g : GChan) (e : Env) (h : Nat) :
     unfold futureWritePoll
     apply Step.prefix_bind
     exact pollComplete_new_prefix futureWriteOps ⟨g.c, h, 900 + g.defaults⟩ e ans
+
+/-! ## The channel as a labelled transition system: every script × every legal host behaviour
+
+`FWReach p s m tr` / `FRReach p s m tr`: state `s` of a guest-writer / guest-reader future channel
+(`ChanSys`: the typed API objects the task body holds — `FutureWriter`, `FutureWrite`, `FutureReader`,
+`FutureRead`, the background `DeferredWrite` — on the generic `WaitableOperation` machine, composed with
+the host's rules for the end) is reachable from the fresh channel by labels that are legal (`CLegal`:
+any body instruction between steps — open, write / read, poll, cancel, drop the operation, drop the end,
+in any order and any number of times — and, for the host, exactly what `Host.End` allows: immediate
+answer BLOCKED / COMPLETED / DROPPED, the peer transferring or dropping while the end is copying, delivery
+of the pending event while registered, cancel answers = the pending code or a resolved race);
+`tr` is everything observable so far and `m` the state of the specification monitor `ChanSpec` after
+`tr`.  Both task ABI versions, payloads with and without owned lists.  All theorems hold for every
+label sequence: induction over the step relation, no depth bound. -/
+
+open Witverif.Async.ChanSpec (CMon run)
+
+/-- **No panic, no host trap, monitor accepts** (guest-writer channel): from every reachable state every
+legal label can be taken without a Rust panic (`unwrap`, `assert!`, `unreachable!`) and without a host
+trap — in particular `future.drop-writable` is never called on an end that is not done —, the
+specification monitor accepts the events, and the state reached is again reachable. -/
+theorem writer_steps_never_panic_or_trap {p : FWP} (hh : p.hd ≠ 0) (hv : p.v = 1 ∨ p.v = 2) {s : ChanSys} {m : CMon} {tr : List Ev}
+    (h : FWReach p s m tr) (l : CLabel) (hl : FWLegal p s l) :
+    ∃ s' evs m', s.step l = .ok s' evs ∧ run p.k m evs = .ok m' ∧ FWReach p s' m' (tr ++ evs) ∧ s'.h.trapped = false := by
+  have hg := fw_step_safe p s m l (fw_reach_inv hh hv h).1 hl
+  cases hs : s.step l with
+  | panic msg evs => rw [hs] at hg; exact absurd hg (by simp [FWGood])
+  | ok s' evs =>
+    rw [hs] at hg
+    simp only [FWGood] at hg
+    cases hm : run p.k m evs with
+    | error e => rw [hm] at hg; exact absurd hg.2 (by simp)
+    | ok m' => exact ⟨s', evs, m', rfl, hm, FWReach.step h hl hs hm, hg.1⟩
+
+/-- the same for the guest-reader channel -/
+theorem reader_steps_never_panic_or_trap {p : FRP} (hh : p.hd ≠ 0) (hv : p.v = 1 ∨ p.v = 2) {s : ChanSys} {m : CMon} {tr : List Ev}
+    (h : FRReach p s m tr) (l : CLabel) (hl : FRLegal p s l) :
+    ∃ s' evs m', s.step l = .ok s' evs ∧ run p.k m evs = .ok m' ∧ FRReach p s' m' (tr ++ evs) ∧ s'.h.trapped = false := by
+  have hg := fr_step_safe p s m l (fr_reach_inv hh hv h).1 hl
+  cases hs : s.step l with
+  | panic msg evs => rw [hs] at hg; exact absurd hg (by simp [FRGood])
+  | ok s' evs =>
+    rw [hs] at hg
+    simp only [FRGood] at hg
+    cases hm : run p.k m evs with
+    | error e => rw [hm] at hg; exact absurd hg.2 (by simp)
+    | ok m' => exact ⟨s', evs, m', rfl, hm, FRReach.step h hl hs hm, hg.1⟩
+
+/-- the monitor state is the fold of the trace: the specification accepts every reachable trace -/
+theorem monitor_accepts {p : FWP} (hh : p.hd ≠ 0) (hv : p.v = 1 ∨ p.v = 2) {s : ChanSys} {m : CMon} {tr : List Ev}
+    (h : FWReach p s m tr) : run p.k {} tr = .ok m ∧ s.h.trapped = false :=
+  (fw_reach_inv hh hv h).2
+
+theorem monitor_accepts_reader {p : FRP} (hh : p.hd ≠ 0) (hv : p.v = 1 ∨ p.v = 2) {s : ChanSys} {m : CMon} {tr : List Ev}
+    (h : FRReach p s m tr) : run p.k {} tr = .ok m ∧ s.h.trapped = false :=
+  (fr_reach_inv hh hv h).2
+
+/-- **A writable end is never dropped before it delivered a value or observed DROPPED.**  At every
+`future.drop-writable` in a reachable trace: if it is this channel's end, the host had told the guest
+COMPLETED (the value went through) or DROPPED (the reader is gone) for it before, and the end had not
+been dropped before.  (The host-side form — the built-in never traps — is `writer_steps_never_panic_or_trap`.) -/
+theorem writer_never_dropped_unwritten {p : FWP} (hh : p.hd ≠ 0) (hv : p.v = 1 ∨ p.v = 2) {s : ChanSys} {m : CMon} {tr : List Ev}
+    (h : FWReach p s m tr) (pre post : List Ev) (hd : Nat) (htr : tr = pre ++ .ch .fdw [hd] :: post) :
+    ∃ mp, run p.k {} pre = .ok mp ∧
+      (hd = mp.handle → mp.handle ≠ 0 → (mp.valueSent = true ∨ mp.doneSeen = true) ∧ mp.endDrops = 0) := by
+  have hm := (monitor_accepts hh hv h).1
+  rw [htr] at hm
+  obtain ⟨mp, me, hp, he, _⟩ := crun_split hm
+  refine ⟨mp, hp, ?_⟩
+  intro hh1 hh0
+  simp only [ChanSpec.step, hh1, hh0, ne_eq, not_true_eq_false, decide_false, Bool.false_or, decide_true,
+    Bool.not_true, Bool.false_eq_true, if_false] at he
+  by_cases h1 : mp.endDrops = 0
+  · by_cases h2 : (mp.valueSent || mp.doneSeen) = true
+    · exact ⟨by simpa using h2, h1⟩
+    · simp [h1, h2] at he
+  · simp [h1] at he
+
+/-- **An unwritten writer or an unfinished write is never stranded**: in every reachable state of an
+opened channel the writable end has been dropped (after COMPLETED / DROPPED, by the theorem above), or
+the body still holds it (`FutureWriter` in its slot or inside a `FutureWrite`), or the default write is
+scheduled or in flight in the background — there is no state in which the end is neither dropped nor
+owned by something that will write to it. -/
+theorem writer_never_stranded {p : FWP} (hh : p.hd ≠ 0) (hv : p.v = 1 ∨ p.v = 2) {s : ChanSys} {m : CMon} {tr : List Ev}
+    (h : FWReach p s m tr) :
+    s.g.opened = false ∨ s.h.gone = true ∨ s.g.fw = some p.hd ∨ (∃ w, s.g.act = .fwrite w) ∨
+      s.g.defer.isSome = true ∨ s.g.deferred.isSome = true := by
+  obtain ⟨_, _, sh, rfl, _⟩ := (fw_reach_inv hh hv h).1
+  cases sh <;> simp [fwSys, fwHost, FWP.g0]
+
+/-- **The reader gets the value at most once** (guest-writer channel: the peer is the reader): in every
+reachable state the peer has received at most one value. -/
+theorem reader_gets_value_once_peer {p : FWP} (hh : p.hd ≠ 0) (hv : p.v = 1 ∨ p.v = 2) {s : ChanSys} {m : CMon} {tr : List Ev}
+    (h : FWReach p s m tr) : s.h.received.length ≤ 1 := by
+  obtain ⟨_, _, sh, rfl, hm⟩ := (fw_reach_inv hh hv h).1
+  cases sh with
+  | gone n d win rcv => simp only [fwMon] at hm; simpa [fwSys, fwHost] using hm.2.2.2
+  | waiting n d x ev => cases ev <;> simp [fwSys, fwHost]
+  | dwaiting n d x ev => cases ev <;> simp [fwSys, fwHost]
+  | queued n d x sent => cases sent <;> simp [fwSys, fwHost]
+  | _ => simp [fwSys, fwHost]
+
+/-- **The reader gets the value at most once** (guest-reader channel): the peer gives at most one value
+and the read API reports at most one. -/
+theorem reader_gets_value_once_guest {p : FRP} (hh : p.hd ≠ 0) (hv : p.v = 1 ∨ p.v = 2) {s : ChanSys} {m : CMon} {tr : List Ev}
+    (h : FRReach p s m tr) : s.h.given.length ≤ 1 ∧ m.returned.length ≤ 1 := by
+  obtain ⟨_, _, sh, rfl, hm⟩ := (fr_reach_inv hh hv h).1
+  cases sh with
+  | gone st ni gv => simp only [frMon] at hm; exact ⟨by simpa [frSys] using hm.2.2.2.2.1, hm.2.2.2.2.2⟩
+  | waiting got => simp only [frMon] at hm; cases got <;> simp [frSys, hm]
+  | closed => simp only [frMon] at hm; subst hm; simp [frSys]
+  | _ => simp only [frMon] at hm; simp [frSys, hm]
+
+/-- **Cancel reports the outcome the host produced** (trace level): at every `AlreadySent` the last code
+the host told the guest for the end was COMPLETED; at every `Dropped(v)` it was DROPPED and `v` is a value
+the guest holds again; at every `Cancelled(v, writer)` it was CANCELLED — or the operation had never
+called the host. -/
+theorem cancel_outcome_is_hosts_trace {p : FWP} (hh : p.hd ≠ 0) (hv : p.v = 1 ∨ p.v = 2) {s : ChanSys} {m : CMon} {tr : List Ev}
+    (h : FWReach p s m tr) (pre post : List Ev) :
+    (tr = pre ++ .ch .fwc [p.c, 0] :: post →
+      ∃ mp, run p.k {} pre = .ok mp ∧ mp.lastCode.map Host.codeBase = some Host.COMPLETED) ∧
+    (∀ v, tr = pre ++ .ch .fwc [p.c, 1, v] :: post →
+      ∃ mp, run p.k {} pre = .ok mp ∧ mp.lastCode.map Host.codeBase = some Host.DROPPED ∧ v ∈ mp.rust) ∧
+    (∀ v, tr = pre ++ .ch .fwc [p.c, 2, v] :: post →
+      ∃ mp, run p.k {} pre = .ok mp ∧ (mp.started = true → mp.lastCode.map Host.codeBase = some Host.CANCELLED) ∧
+        v ∈ mp.rust) := by
+  have hm := (monitor_accepts hh hv h).1
+  refine ⟨?_, ?_, ?_⟩
+  · intro htr
+    rw [htr] at hm
+    obtain ⟨mp, me, hp, he, _⟩ := crun_split hm
+    refine ⟨mp, hp, ?_⟩
+    simp only [ChanSpec.step, FWP.k, ne_eq, not_true_eq_false, if_false] at he
+    by_cases h1 : mp.lastCode.map Host.codeBase = some Host.COMPLETED
+    · exact h1
+    · simp [h1] at he
+  · intro v htr
+    rw [htr] at hm
+    obtain ⟨mp, me, hp, he, _⟩ := crun_split hm
+    refine ⟨mp, hp, ?_⟩
+    simp only [ChanSpec.step, FWP.k, ne_eq, not_true_eq_false, if_false] at he
+    by_cases h1 : mp.lastCode.map Host.codeBase = some Host.DROPPED
+    · by_cases h2 : v ∈ mp.rust
+      · exact ⟨h1, h2⟩
+      · simp [h1, h2] at he
+    · simp [h1] at he
+  · intro v htr
+    rw [htr] at hm
+    obtain ⟨mp, me, hp, he, _⟩ := crun_split hm
+    refine ⟨mp, hp, ?_⟩
+    simp only [ChanSpec.step, FWP.k, ne_eq, not_true_eq_false, if_false] at he
+    by_cases h2 : v ∈ mp.rust
+    · by_cases h1 : mp.started = true
+      · by_cases h3 : mp.lastCode.map Host.codeBase = some Host.CANCELLED
+        · exact ⟨fun _ => h3, h2⟩
+        · simp [h1, h2, h3] at he
+      · exact ⟨fun hs => absurd hs h1, h2⟩
+    · simp [h2] at he
+
+/-- the four operation kinds satisfy the only assumption of the generic C18 theorems -/
+theorem future_ops_stable : futureWriteOps.Stable ∧ futureReadOps.Stable :=
+  ⟨futureWriteOps_stable, futureReadOps_stable⟩
+
+/-! ## Non-vacuity: concrete runs -/
+
+def fwp0 : FWP := ⟨0, 1, .lists, 1, 2⟩
+
+/-- a writer dropped without writing: the default value is made, lowered and written; when the peer
+reads it and the event is delivered the lists are freed and only then the end is dropped -/
+example :
+    (runLabels (fwSys fwp0 .closed) [.opn 1 2, .close true 0, .deferStart Host.BLOCKED, .peerXfer 1, .deliver]).map (·.2) =
+    some [.ch .opn [0], .ch .fnew [1, 2], .ch .moved [2], .ch .ie [0], .ch .defv [0, 900], .ch .lo [0, 900],
+          .ch .fwrite [1, 4294967295], .clone 1, .reg 1 1 false, .ch .xf [0, 900], .dlv 1 0, .ch .dli [0, 900], .free 0,
+          .ch .fdw [1], .tdrop 1] := by rfl
+
+/-- an unfinished write dropped, the host answers CANCELLED: value handed back and dropped, default
+written instead -/
+example :
+    (runLabels (fwSys fwp0 .closed) [.opn 1 2, .fut, .poll Host.BLOCKED, .dropOp Host.CANCELLED, .deferStart Host.DROPPED]).map (·.2) =
+    some [.ch .opn [0], .ch .fnew [1, 2], .ch .moved [2], .ch .ifw [0, 1], .ch .lo [0, 1], .ch .fwrite [1, 4294967295],
+          .clone 1, .reg 1 1 false, .poll 0 .pend, .dropF 0, .unreg 1 1 true, .ch .fcw [1, 2], .ch .li [0, 1], .free 0,
+          .ch .vd [0, 1], .ch .defv [0, 900], .ch .lo [0, 900], .ch .fwrite [1, 1], .ch .li [0, 900], .free 0, .ch .fdw [1],
+          .ch .vd [0, 900], .tdrop 1] := by rfl
+
+/-- the monitor is not trivially true: dropping the writer before anything was written is rejected, so
+is `AlreadySent` after a CANCELLED -/
+example : (match run fwp0.k {} [.ch .opn [0], .ch .fnew [1, 2], .ch .fdw [1]] with
+    | .error cls => cls | .ok _ => "accepted") = "writer-dropped-unwritten" := by decide
+example : (match run fwp0.k {} [.ch .opn [0], .ch .fnew [1, 2], .ch .ifw [0, 1], .ch .lo [0, 1], .ch .fwrite [1, 4294967295],
+      .ch .fcw [1, 2], .ch .fwc [0, 0]] with
+    | .error cls => cls | .ok _ => "accepted") = "cancel-already-sent-not-hosts" := by decide
 
 end Witverif.Props.C20
